@@ -42,7 +42,7 @@ func guard(f func()) (v *simrt.Violation) {
 	defer func() {
 		if r := recover(); r != nil {
 			if b, ok := r.(simio.BudgetExceeded); ok {
-				v = &simrt.Violation{Class: "hang", Site: "reader-spins", Text: b.Error()}
+				v = &simrt.Violation{Class: "hang", Site: "reader-spins", Text: b.String()}
 				return
 			}
 			site := panicFrame()
@@ -350,6 +350,9 @@ func readSeqs(pl *C01Plan, src *simio.Source, limit int) (recs []gotSeq, v *simr
 		var err error
 		if pv := guard(func() { s, err = rd.Read() }); pv != nil {
 			return recs, pv
+		}
+		if src.Spun {
+			return recs, &simrt.Violation{Class: "hang", Site: "reader-spins", Text: "reader kept polling an exhausted stream (and swallowed the simulator's stop signal)"}
 		}
 		if err == io.EOF && isNilValue(s) {
 			return recs, nil
